@@ -2109,7 +2109,9 @@ def stage_ast(work, tier, seed):
                 continue
             lex = G.lexeme_of(g)
             inputs.append(" ".join("%s%d" % (lex[t], i + 1) for i, t in enumerate(toks)))
-        for st in (dict(algo="lr"), dict(algo="glr")):
+        # LR without the silent shift-over-EMPTY preference (a grammar that needs it does not have
+        # the language the sentences were drawn from)
+        for st in (dict(algo="lr", pse=False), dict(algo="glr")):
             k += 1
             insts.append({"name": "a%d" % k, "shape": "corpus:" + gid, "grammar": text,
                           "settings": dict(st, builder="default"), "inputs": inputs, "nones": None,
